@@ -89,8 +89,11 @@ tztrim(char *ss)
     cp = ss;
     if (*cp == '-')
         cp++;
+    ep = cp;
     while (isdigit((int)*cp) || *cp == '.')
         cp++;
+    if (cp == ep) /* no digits at all: "nan", "inf", "-inf" - nothing to trim, and nothing before cp to look at */
+        return;
     if (*--cp == '.')
         return;
     ep = cp + 1;
